@@ -584,11 +584,26 @@ pub fn check_logical_index_lengths(target: &Value, ixes: &[Value]) -> MResult<()
             ValueKind::Matrix(k, _) => *k == ValueKind::Bool,
             _ => false,
         };
+        let extent = if ixes.len() == 1 { shape[0] * shape[1] } else { shape[dim] };
         if !is_logical {
+            // Numeric indices are 1-based positions inside the indexed extent. The kernels
+            // compute `ix - 1` unchecked, which wraps for 0 in release builds.
+            let positions: Vec<usize> = match ix {
+                Value::Index(i) => vec![*i.borrow()],
+                Value::MatrixIndex(m) => m.as_vec(),
+                Value::MutableReference(r) => match &*r.borrow() {
+                    Value::Index(i) => vec![*i.borrow()],
+                    Value::MatrixIndex(m) => m.as_vec(),
+                    _ => vec![],
+                },
+                _ => vec![],
+            };
+            if positions.iter().any(|p| *p == 0 || *p > extent) {
+                return Err(MechError::new(IndexOutOfBoundsError, None).with_compiler_loc());
+            }
             continue;
         }
         let ix_shape = ix.shape();
-        let extent = if ixes.len() == 1 { shape[0] * shape[1] } else { shape[dim] };
         if ix_shape[0] * ix_shape[1] != extent {
             return Err(MechError::new(
                 DimensionMismatch { dims: vec![shape[0], shape[1], ix_shape[0], ix_shape[1]] },
